@@ -156,6 +156,31 @@ func c07(tier string, args []string) int {
 				run.AddStates(1)
 			}
 		})
+		// the stop arrives mid-search: every node limit 1..N on the test positions (first configuration of the cube, the
+		// default configuration and all-off) - a node must not be classified because the search was stopped before it
+		// could try a move
+		if ci == 0 || ci == len(cfgs)-2 || ci == len(cfgs)-1 {
+			maxNodes := 300
+			if tier == "thorough" {
+				maxNodes = 1500
+			}
+			tf := testdataFens(nTest)
+			vl.Parallel(len(tf), func(fi, _ int) {
+				s := search.NewSearch()
+				s.SetUciHandler(&capDriver{})
+				for nn := 1; nn <= maxNodes && !run.Expired(); nn++ {
+					c07cur = &c07ctx{fen: tf[fi], cfg: cfgName, limit: fmt.Sprintf("nodes %d", nn)}
+					msg, pan := vl.Guard(func() { runSearch(s, casePos(tf[fi]), search.Limits{Nodes: uint64(nn)}) })
+					if pan {
+						run.Violate("search-panic", msg, map[string]interface{}{"fen": tf[fi], "config": cfgName, "nodes": nn})
+						return
+					}
+					atomic.AddInt64(&nodes, int64(s.NodesVisited()))
+					run.AddStates(1)
+					run.Count("node_limited_searches", 1)
+				}
+			})
+		}
 		// converse clause: terminal roots
 		for _, f := range terminal {
 			r := refchess.MustFEN(f)
